@@ -274,6 +274,13 @@ VARIANTS["C17"] = [
       ("D4",), "regression of F11c: head ramp of a short last window overwritten"),
     V("splice-tail-not-flipped", "fire", UT, [("amp[last - first - self.overlap:] = np.flipud(w)", "amp[last - first - self.overlap:] = w")], ("D4",), ""),
     V("tscale-first", "fire", UT, [("[(first + (last - first - 1) / 2) / fs for first, last in self.firstlast]", "[(first + (last - first) / 2) / fs for first, last in self.firstlast]")], ("D5",), ""),
+    V("twin-nwin-ceildiv", "twin", UT, [("max(int(np.ceil(float(ns - nswin) / float(nswin - overlap))), 0) + 1", "max(-((self.overlap - self.ns) // (self.nswin - self.overlap)), 1)")], (),
+      "integer ceiling division with the clamp kept: ceil((ns-overlap)/stride) = ceil((ns-nswin)/stride) + 1, max(x+1, 1) = max(x, 0) + 1"),
+    V("nwin-ceildiv-unclamped", "fire", UT, [("max(int(np.ceil(float(ns - nswin) / float(nswin - overlap))), 0) + 1", "-((self.overlap - self.ns) // (self.nswin - self.overlap))")], ("D3",),
+      "exact for ns > overlap, <= 0 for shorter signals"),
+    V("twin-valid-by-counter", "twin", UT, [(
+        "            first_valid = 0 if first == 0 else first + self.overlap // 2\n            last_valid = last if last == self.ns else last - self.overlap // 2\n",
+        "            first_valid = 0 if self.iw == 0 else first + self.overlap // 2\n            last_valid = last if self.iw == self.nwin - 1 else last - self.overlap // 2\n")], (), ""),
     V("twin-stride-var", "twin", UT, [("            first += self.nswin - self.overlap\n", "            step = self.nswin - self.overlap\n            first = first + step\n")], (), ""),
     V("twin-valid-if-stmt", "twin", UT, [(
         "            first_valid = 0 if first == 0 else first + self.overlap // 2\n", "            half = self.overlap // 2\n            first_valid = 0 if first == 0 else first + half\n")], (), ""),
@@ -361,6 +368,9 @@ VARIANTS["C11"] = [
     V("ns-truncates", "fire", SG, [(
         "        return int(np.round(self.meta.get(\"fileTimeSecs\") * self.fs))\n", "        return int(self.meta.get(\"fileTimeSecs\") * self.fs)\n")], ("D2",),
       "n / fs * fs can be n - eps: one frame lost for some (n, fs)"),
+    V("duration-from-constructor-size", "fire", SG, [(
+        "                ftsec = (\n                    self.file_bin.stat().st_size // (self.dtype.itemsize * self.nc)\n                ) / self.fs\n",
+        "                ftsec = (self.nbytes // (self.dtype.itemsize * self.nc)) / self.fs\n")], ("D3",), "needs Reader(open=False), a size change, then open()"),
     V("twin-int-of-quotient", "twin", SG, [(
         "self.file_bin.stat().st_size // (self.dtype.itemsize * self.nc)\n                ) / self.fs", "int(self.file_bin.stat().st_size / (self.dtype.itemsize * self.nc))\n                ) / self.fs")], (), ""),
     V("twin-floor-call", "twin", SG, [(
@@ -382,6 +392,12 @@ VARIANTS["C10"] = [
     V("falls-step-not-negated", "fire", UT, [("    return rises(-x, axis=axis, step=-step, analog=analog)\n", "    return rises(-x, axis=axis, step=step, analog=analog)\n")], ("D2",), ""),
     V("concat-analog-first", "fire", SG, [("        return np.concatenate((digital, np.int8(analog)), axis=1)\n", "        return np.concatenate((np.int8(analog), digital), axis=1)\n")], ("D3",), ""),
     V("threshold-strict", "fire", SG, [("        analog[np.where(analog >= threshold)] = 1\n", "        analog[np.where(analog > threshold)] = 1\n")], ("D3",), ""),
+    V("falls-delegates-with-negative-step", "fire", UT, [("    return rises(-x, axis=axis, step=-step, analog=analog)\n", "    ind, sign = fronts(x, axis=axis, step=step)\n    return ind[..., sign < 0]\n"), (
+        "    ind = np.array(np.where(np.diff(x, axis=axis) >= step))\n    ind[axis] += 1\n    if len(ind) == 1:\n        return ind[0]\n    else:\n        return ind\n",
+        "    ind, sign = fronts(x, axis=axis, step=step)\n    return ind[..., sign > 0]\n")], ("D2",), "falls with a non-default step on a multi-level signal returns every downward transition"),
+    V("twin-delegates-with-magnitude", "twin", UT, [("    return rises(-x, axis=axis, step=-step, analog=analog)\n", "    ind, sign = fronts(x, axis=axis, step=-step)\n    return ind[..., sign < 0]\n"), (
+        "    ind = np.array(np.where(np.diff(x, axis=axis) >= step))\n    ind[axis] += 1\n    if len(ind) == 1:\n        return ind[0]\n    else:\n        return ind\n",
+        "    ind, sign = fronts(x, axis=axis, step=step)\n    return ind[..., sign > 0]\n")], (), "same refactor with the step negated for falls (analog mode aside)"),
     V("twin-bitorder-little", "twin", SG, [(
         "    out = np.unpackbits(sync_tr.view(np.uint8)).reshape(sync_tr.size, 16)\n    out = np.flip(np.roll(out, 8, axis=1), axis=1)\n",
         "    out = np.unpackbits(sync_tr.view(np.uint8), bitorder=\"little\").reshape(sync_tr.size, 16)\n")], (), "LSB-first unpacking needs neither roll nor flip"),
@@ -408,6 +424,10 @@ VARIANTS["C16"] = [
     V("callsite-range-all", "fire", VO, [("data=chunk, max_voltage=_sr.range_volts[:ncv], fs=_sr.fs)", "data=chunk, max_voltage=_sr.range_volts[:-1], fs=_sr.fs)")], ("D4",),
       "identical for 385-channel files with one sync, wrong for nidq or subset files"),
     V("twin-clip", "twin", VO, [("    mute = np.maximum(0, 1 - scipy.signal.convolve(saturation, win, mode='same'))\n", "    mute = np.clip(1 - scipy.signal.convolve(saturation, win, mode='same'), 0, 1)\n")], (), ""),
+    V("threshold-scaled-in-place", "fire", VO, [(
+        "    max_voltage = np.atleast_1d(max_voltage)[:, np.newaxis]\n    saturation = np.mean(np.abs(data) > max_voltage * 0.98, axis=0)\n",
+        "    max_voltage = np.atleast_1d(max_voltage)\n    max_voltage *= 0.98\n    max_voltage = max_voltage[:, np.newaxis]\n    saturation = np.mean(np.abs(data) > max_voltage, axis=0)\n")], ("D5", "D1"),
+      "the caller's per-channel range array is scaled by 0.98 on every call"),
     V("twin-count-form", "twin", VO, [(
         "    saturation = np.mean(np.abs(data) > max_voltage * 0.98, axis=0)\n", "    saturation = np.count_nonzero(np.abs(data) > max_voltage * 0.98, axis=0)\n"), (
         "np.logical_or(saturation > proportion, n_diff_saturated > proportion)", "np.logical_or(saturation > proportion * data.shape[0], n_diff_saturated > proportion)")], (),
@@ -455,6 +475,11 @@ VARIANTS["C18"] = [
     V("fscale-mirror", "fire", FO, [("-fsc[slice(-2 + (ns % 2), 0, -1)]", "-fsc[slice(-2, 0, -1)]")], ("D4",), "odd lengths get ns - 1 entries"),
     V("fscale-si-multiplied", "fire", FO, [("    fsc = np.arange(0, np.floor(ns / 2) + 1) / ns / si  # sample", "    fsc = np.arange(0, np.floor(ns / 2) + 1) / ns * si  # sample")], ("D5",), "identical for si = 1"),
     V("searchsorted-right", "fire", FO, [("    return sz[np.searchsorted(sz, ns)]\n", "    return sz[np.searchsorted(sz, ns, side=\"right\")]\n")], ("D5",), ""),
+    V("corners-scaled-in-place", "fire", FO, [(
+        "    f = fscale(ns, si=si, one_sided=True)\n", "    f = fscale(ns, one_sided=True)\n    b = np.asarray(b, dtype=float)\n    b *= si\n")], ("D6",),
+      "needs float64 ndarray corners, si != 1 and the same array (or slices of it) reused in a later call"),
+    V("twin-corners-scaled-copy", "twin", FO, [(
+        "    f = fscale(ns, si=si, one_sided=True)\n", "    f = fscale(ns, one_sided=True)\n    b = np.array(b, dtype=float) * si\n")], (), "same normalisation on a copy"),
     V("twin-irfft-positional", "twin", FO, [("gp.fft.rfft(w_, axis=-1), n=ns, axis=-1)", "gp.fft.rfft(w_, axis=-1), ns, axis=-1)")], (), ""),
     V("twin-first-formula", "twin", FO, [("        first = int(gp.floor(nsw / 2)) - ((nsw + 1) % 2)\n", "        first = int(gp.floor((nsw - 1) / 2))\n")], (), ""),
 ]
